@@ -149,10 +149,11 @@ PROPS = {
         tables=["parse"],
         determined=True,
         technique='Lean 4 theorems: conservative extension for whole documents (no option-dependent branch on a strict-successful run) and exactness of the lenient semantics at the string scanner — for every option record, accepted string literals are exactly an explicit extension of the RFC 8259 string production by two one-option-each element kinds, each denoting one U+FFFD (both directions, by induction over the scanner loop with a pending-high state); tied to the code by exhaustive differential execution over element sequences under all four option records and an independent two-pass reference',
-        level_text=('Proof on the model of both sentences of the property. (1) Conservative extension, whole documents: C12_conservative — for every character stream (well-formed or failing) and every option record, whatever strict mode accepts is accepted with the identical value and code map (run_mono: no option-dependent branch is taken on a successful strict run); presets regenerated from the source (strict = default = all false, flexible = all true). (2) Exactness, at the only place where the options are consulted — the string scanner, values and keys alike: C12_string_exact — under ANY option record the scanner accepts a literal and returns str iff the literal is an LString o denoting str, where LString o (Spec/Lenient.lean) is the RFC 8259 string production extended by exactly two element kinds: a high-surrogate escape not directly followed by a low-surrogate escape (iff accept_truncated_surrogate_pair) and a low-surrogate escape not preceded by a high one (iff accept_invalid_codepoints), each denoting exactly one U+FFFD; a high escape directly followed by a low escape is one scalar under every option record. Both directions, every string, no bound (strLoopO_sound / strLoopO_complete: induction over the scanner loop including the pending-high state; strStepO_trunc: with the truncation option a pending high followed by anything but a low escape behaves exactly as U+FFFD followed by that input). C12_strict_adds_nothing, C12_monotone (options independent and monotone), C12_lone_high_needs_trunc. Not a separate Lean theorem: the lifting of (2) from strings to whole documents (the container layer never reads the options; it is the same code under all records). Tie to /repo: the full result under all four option records is compared with the model and with an independent two-pass reference exhaustively over every sequence of <= 3 (thorough 4) string elements from {high escapes, low escapes, ordinary escapes, raw BMP/non-BMP chars, truncated escape} in value and key position, all 65,536 \\uXXXX, plus the C01 streams.'),
+        level_text=('Proof on the model of both sentences of the property. (1) Conservative extension, whole documents: C12_conservative — for every character stream (well-formed or failing) and every option record, whatever strict mode accepts is accepted with the identical value and code map (run_mono: no option-dependent branch is taken on a successful strict run); presets regenerated from the source (strict = default = all false, flexible = all true). (2) Exactness, at the only place where the options are consulted — the string scanner, values and keys alike: C12_string_exact — under ANY option record the scanner accepts a literal and returns str iff the literal is an LString o denoting str, where LString o (Spec/Lenient.lean) is the RFC 8259 string production extended by exactly two element kinds: a high-surrogate escape not directly followed by a low-surrogate escape (iff accept_truncated_surrogate_pair) and a low-surrogate escape not preceded by a high one (iff accept_invalid_codepoints), each denoting exactly one U+FFFD; a high escape directly followed by a low escape is one scalar under every option record. Both directions, every string, no bound (strLoopO_sound / strLoopO_complete: induction over the scanner loop including the pending-high state; strStepO_trunc: with the truncation option a pending high followed by anything but a low escape behaves exactly as U+FFFD followed by that input). C12_strict_adds_nothing, C12_monotone (options independent and monotone), C12_lone_high_needs_trunc. Not a separate Lean theorem: the lifting of (2) from strings to whole documents (the container layer never reads the options; it is the same code under all records). Tie to /repo: the full result under all four option records is compared with the model and with an independent two-pass reference exhaustively over every sequence of <= 3 (thorough 4) string elements from {high escapes, low escapes, ordinary escapes, raw BMP/non-BMP chars, truncated escape} in value and key position, all 65,536 \\uXXXX, plus the C01 streams.'
+                    " (3) Exactness for WHOLE DOCUMENTS: C12_document_exact — under ANY option record o the parser accepts a text with value v if and only if the text is an LDoc o with content v (Spec/LGrammar.lean: the RFC 8259 grammar of Spec/Grammar.lean word for word, with every string — value or key, at any depth — an LString o literal); proved by re-running the soundness and completeness proofs of the recursive-descent layer for an arbitrary record (Lemmas/LGramSound.lean, LGramComplete.lean) on top of machine_eq_rd; C12_strict_is_rfc8259 (both options off: LDoc = the RFC 8259 grammar), C12_document_conservative (every RFC 8259 text keeps its content under every record; the content under a record is unique)."),
         level_note="Trusted: Lean kernel; model validated by correspondence; the harness's two-pass reference for the lenient semantics.",
         rule="request = text + option record, full result projection (value, code map, error). Non-trivial = accepted; distinct request lines",
-        strength='conservative extension proved for documents; exact lenient semantics proved for every string and option record; document-level lifting of exactness by the (option-free) container layer; tie to the code by correspondence',
+        strength='full on the model: conservative extension and exact lenient semantics proved for whole documents under every option record (accepts with value v iff LDoc o text v); tie to the code by correspondence',
         trusted_base=COMMON_TRUST + ["harness reference (refjson.rs) for the lenient surrogate policy"],
         assumptions=[],
     ),
